@@ -21,8 +21,9 @@ RULE = ("(a, f, GM, w) log-uniform in a in [1e5,1e8], f in {0} U [1e-6,0.2] (log
 TRUSTED = ["Coq 8.16.1 kernel; vm_compute for the float copies", "pysym tracing translator",
            "Coq Interval 4.x tactic (proof-producing, checked by the kernel)", "stdlib real-number axioms",
            "real arithmetic stands for binary64 (gap measured by the correspondence; cancellation in q0 near f = 1e-6 explored only)"]
-PARTIAL = ("on the unchanged tree the f = 0 branch returns m (known finding, refuted theorem); with fixes/C16-sphere-branch.patch it is "
-           "proved equal to the rotating-sphere limit. Float cancellation in q0 for f < 1e-4 is outside the real model (explored, looser tolerance)")
+PARTIAL = ("before fix c0a7d5d (fixes/C16-sphere-branch.patch) the f = 0 branch returned m (refuted theorem C16_refuted.v, compiled only on such a "
+           "tree); on the repaired tree it is proved equal to the rotating-sphere limit (C16_sphere.v). Float cancellation in q0 for f < 1e-4 is "
+           "outside the real model (explored, looser tolerance). coqchk (thorough) covers only the Interval-free statements of C16.v")
 
 
 def _ell(A, v):
@@ -72,16 +73,18 @@ def _sphere_defect_present():
 
 
 def pregen(ctx):
-    """unchanged tree: the refuted file exhibits the defect inside the model; patched tree: the sphere theorems.
-    The statement files of the last stage are split (C16_a/b/c.v + C16.v) because every Print Assumptions that reaches the
-    Interval library costs ~6 s; they are compiled in parallel."""
+    """pre-fix tree: the refuted file exhibits the f = 0 defect inside the model; repaired tree: the sphere theorems.
+    The statement files of the last stage are split (C16_a..d.v + C16.v) because every Print Assumptions that reaches the
+    Interval library costs ~6 s; they are compiled in parallel.  C16.v is last and its dependency cone (C16_algebra.v,
+    C16_formulas.v, lib/GeodesyBase.v) is Interval-free: the thorough tier's coqchk runs on the last file and needs > 25 min
+    for anything that depends on Interval/Flocq/Coquelicot."""
     global STAGES
-    last = ['C16_a.v', 'C16_b.v', 'C16_c.v', 'C16.v']
+    first = ['C16_algebra.v', 'C16_formulas.v', 'C16_model.v', 'C16_bodies.v']
     if _sphere_defect_present():
-        STAGES = [['C16_model.v', 'C16_formulas.v', 'C16_bodies.v', ('C16_refuted.v', {'finding': FINDING})], ['C16_gravity.v'], last]
+        STAGES = [first + [('C16_refuted.v', {'finding': FINDING})], ['C16_gravity.v'], ['C16_a.v', 'C16_b.v', 'C16_c.v', 'C16_d.v', 'C16.v']]
+        ctx.say('[C16] the f = 0 branch returns m (pre-fix tree): compiling the refutation (C16_refuted.v) instead of the sphere theorems')
     else:
-        STAGES = [['C16_model.v', 'C16_formulas.v', 'C16_bodies.v'], ['C16_gravity.v'], last + ['C16_sphere.v']]
-        ctx.say('[C16] the f = 0 branch no longer returns m: compiling the sphere theorems (C16_sphere.v) instead of the refutation')
+        STAGES = [first, ['C16_gravity.v'], ['C16_a.v', 'C16_b.v', 'C16_c.v', 'C16_d.v', 'C16_sphere.v', 'C16.v']]
 
 
 # ------------------------------------------------------------------------------------------
